@@ -1,5 +1,6 @@
 import TinsModel.Wire.L2.ThFamily
 import TinsModel.Wire.L2.ThChain
+import TinsModel.Wire.L2.ThChainParse
 /-
   Per-layer and family-level theorems of the L2 family for the four wire properties.  Index:
 
@@ -12,4 +13,10 @@ import TinsModel.Wire.L2.ThChain
                      (witness), `llc_api_reparse_partial` / `llc_api_reparse_holds_without_infos` (proved part)
   ThFamily.lean      l2_parse_safe, l2_parse_consumes, l2_parse_inv, l2_mk_inv, l2_apply_inv, l2_writesOnlyAt
   ThChain.lean       l2_chain_serialize_total, l2_chain_frame over the registry's `sems`
+  ThChainView.lean   `ViewEq` = the C03 comparison of two stacks (Lean counterpart of `Driver.WireSpec.sameView`)
+  ThChainStep.lean   `Stackable` (what the protocols can express), <cls>_step / l2_step: the one-layer step of whole-packet C03
+  ThChainReparse.lean  l2_chain_reparse: whole-packet C03 (re-parse preserves the view) for stacks of any depth, examples
+  ThChainFixpoint.lean serializeInto_wire (closed form of PDU::serialize), l2_chain_reserialize_fixpoint_partial /
+                     _fails: whole-packet C03, second half (the second serialization reproduces the bytes)
+  ThChainParse.lean  parse_stackable (what the parsing constructors accept is `Stackable`), l2_c03 (property C03 as stated)
 -/
